@@ -68,6 +68,10 @@ func (w *world) logFailure() {
 	case e == "":
 	case strings.Contains(e, "execute ParserCloser failed") && strings.Contains(e, "interface is nil"):
 		w.failf("recovered-panic DataHandler nil-session|nbhttp.Engine.DataHandler panicked (recovered and logged): %s. The connection's session is nil: Upgrade had installed the websocket.Conn as session, failed to write the 101 response (the peer was gone) and cleared the session again (clearNBCWSSession) while the poller was delivering bytes the client had sent after its upgrade request; `c.Session().(ParserCloser)` is a single-value type assertion, which panics on a nil interface before the nil check that follows it can run", e)
+	case strings.HasPrefix(e, "nil ParserCloser"):
+		// DataHandler found the session cleared by a failed upgrade and said so: an ordinary
+		// diagnostic, not a swallowed panic (this is what the repaired code does instead of
+		// panicking)
 	default:
 		w.failf("logged-error|nbio logged an error (a recovered panic?): %s", e)
 	}
